@@ -5,6 +5,7 @@
 mod u1;
 mod u10;
 mod u2;
+mod u2b;
 mod u3;
 mod u5;
 mod u6;
@@ -26,6 +27,8 @@ fn main() {
     ("u1", "raw") => u1::raw(rest),
     ("u2", "find") => u2::find(rest),
     ("u2", "replay") => u2::replay(rest),
+    ("u2b", "find") => u2b::find(rest),
+    ("u2b", "replay") => u2b::replay(rest),
     ("u10", "find") => u10::find(rest),
     ("u10", "replay") => u10::replay(rest),
     ("u5", "find") => u5::find(rest),
